@@ -39,6 +39,8 @@ requests (bytes are arrays of 0..255, text arrays of code points):
         → {"overlays":[b…],"fades":[b…],"levels":[b…],"texinfo":[id…]} | {"err":e}
   {"op":"x_surfedges","layout":L,"verts":[id…],"zeros":[id…],"fresh":id,"dummy":id,"ed":[[edge,a,b]…],"ss":[[edge,reversed]…]}
         → {"surfedges":[b…],"edges":[b…],"verts":[id…]}
+  {"op":"x_water","layout":L,"texinfo":[id…],"items":[{sz,mz,texinfo}]} → {"bytes":[b…],"texinfo":[id…]}
+  {"op":"x_vfaces","tabs":{texinfo,planes,surfedges},"faces":[{plane,texinfo,dispinfo,edges,lm,flags}]} → {"bytes":[b…],"tabs":{…}}
   {"op":"gen"}                                           → facts extracted from the source
 -/
 open Lean StructCodec C11
@@ -486,6 +488,27 @@ def handle (j : Json) : Except String Json := do
     let r := writeSurfedges (fun v => zeros.contains v) fresh dummy (lookupD eds (0, 0)) verts ss
     pure (Json.mkObj [("surfedges", ← packRecs "surfedges" "*" (r.1.map (fun i => [Val.int i]))),
       ("edges", ← packRecs "edges" layout r.2.1), ("verts", Wire.ofNatList r.2.2)])
+  | "x_water" =>
+    let layout ← j.getObjValAs? String "layout"
+    let texinfo ← natsOf j "texinfo"
+    let wj ← (← j.getObjVal? "items").getArr?
+    let ws ← wj.toList.mapM fun q => do
+      pure (WaterV.mk (UInt32.ofNat (← natOf q "sz")) (UInt32.ofNat (← natOf q "mz")) (← natOf q "texinfo"))
+    let r := writeWater (Finder.mk' idKey texinfo) ws
+    pure (Json.mkObj [("bytes", ← packRecs "leafwaterdata" layout r.1), ("texinfo", Wire.ofNatList r.2.list)])
+  | "x_vfaces" =>
+    let tj ← j.getObjVal? "tabs"
+    let fj ← (← j.getObjVal? "faces").getArr?
+    let fs ← fj.toList.mapM fun f => do
+      let lm ← Wire.intList (← f.getObjVal? "lm")
+      pure (VFaceV.mk (← natOf f "plane") (← optNatOf f "texinfo") (← intOf f "dispinfo") (← natsOf f "edges")
+        lm[0]! lm[1]! lm[2]! lm[3]! (← intOf f "flags"))
+    let s0 : VFaceSt := VFaceSt.mk (Finder.mk' idKey (← natsOf tj "texinfo")) (Finder.mk' idKey (← natsOf tj "planes"))
+      (EFinder.mk' idKey (← natsOf tj "surfedges"))
+    let r := writeVFaces Gen.Bspfmt.findOrExtendBounded s0 fs
+    pure (Json.mkObj [("bytes", ← packRecs "faces" "LUMP_LAYOUT_VITAMIN" r.1),
+      ("tabs", Json.mkObj [("texinfo", Wire.ofNatList r.2.fTex.list), ("planes", Wire.ofNatList r.2.fPlane.list),
+        ("surfedges", Wire.ofNatList r.2.eEdges.list)])])
   | "gen" =>
     pure (Json.mkObj [
       ("findOrExtendBounded", Json.bool Gen.Bspfmt.findOrExtendBounded),
